@@ -286,7 +286,9 @@ CBMC_BASE = ["--no-malloc-may-fail", "--no-undefined-shift-check", "--no-signed-
 CBMC_FUNCTIONAL = ["--no-bounds-check", "--no-pointer-check", "--no-div-by-zero-check"]
 
 MAX_REPLAYS = int(os.environ.get("VERIF_MAX_REPLAYS", "2"))
-IGNORED_CLASSES = {"reachability_check"}
+# "NaN": CBMC's C-style check that a float operation produced NaN - not an error in Rust (casts saturate, comparisons are defined);
+# code that cannot take a NaN (Duration::from_secs_f32) panics by itself, which is an ordinary assertion
+IGNORED_CLASSES = {"reachability_check", "NaN"}
 INCONCLUSIVE_CLASSES = {"unwind", "unsupported_construct", "sanity_check", "internal", "unsupported_struct", "unsound_experimental"}
 
 
